@@ -69,12 +69,13 @@ section recovery
 open Pm.Dev2.Timer Pm.Dev2.Fd Pm.Dev2.Interp
 
 /-- **When `_handle_ready_device` reports an i/o error on a CONNECTED device** (holding a descriptor): exactly when `poll`
-    reports POLLHUP/POLLERR/POLLNVAL, or POLLOUT with nothing to write ("write sent no data") or a failing `write`, or
-    POLLIN with a failing `read` or end of file. -/
+    reports POLLHUP/POLLERR/POLLNVAL, or POLLOUT with nothing to write ("write sent no data") or a failing `write`
+    (`writeOk = false`: EPIPE; `wcap = 0`: the descriptor takes nothing, EAGAIN — a short write of at least one byte is
+    not an error, `C09_device_short_write`), or POLLIN with a failing `read` or end of file. -/
 theorem C12_ioerr_kinds (c : CS) (h2 : c.dev.conn = 2) (hfd : c.dev.fd.isSome = true) :
     (handleReady c).2 = true ↔
       (c.env.revents &&& 4 != 0 || c.env.revents &&& 8 != 0 || c.env.revents &&& 16 != 0) = true ∨
-      ((c.env.revents &&& 2 != 0) = true ∧ (c.dev.toBuf.isEmpty = true ∨ c.env.writeOk = false)) ∨
+      ((c.env.revents &&& 2 != 0) = true ∧ (c.dev.toBuf.isEmpty = true ∨ c.env.writeOk = false ∨ c.env.wcap = 0)) ∨
       ((c.env.revents &&& 1 != 0) = true ∧ (c.env.read = some none ∨ c.env.read = some (some []))) :=
   handleReady_connected_ioerr c h2 hfd
 
